@@ -315,9 +315,11 @@ def r3_commit(ctx, cfg):
     # (c) commit(prepare(cache), base) dominated by the Continue edge of the action's result
     cargs = P.call_args(f, ct)
     c0 = peel(cargs[0]) if cargs else ("unknown", "")
-    ok_args = (len(cargs) == 2 and c0[0] == "call" and c0[1] == "transactions::StorageTransaction::prepare"
-               and peel(c0[2][0])[0] == "call" and peel(c0[2][0])[1] == "transactions::StorageTransaction::new"
-               and is_param(cargs[1], "base"))
+    # prepare(cache) hands out the cache's change log (`self.rep_log`): a constructor-like function, expanded by the engine
+    ok_args = (len(cargs) == 2 and is_param(cargs[1], "base") and
+               ((c0[0] == "call" and c0[1] == "transactions::StorageTransaction::prepare"
+                 and peel(c0[2][0])[0] == "call" and peel(c0[2][0])[1] == "transactions::StorageTransaction::new") or
+                (c0[0] == "field" and c0[2] == "rep_log" and peel(c0[1])[0] == "call" and peel(c0[1])[1] == "transactions::StorageTransaction::new")))
     ctx.ob(R, key, "c:commit(prepare(cache), base)", ok_args,
            "commit must replay prepare(cache) onto base, got (%s)" % ", ".join(fmt(x) for x in cargs), fn=f,
            line=ct["line"], sample="commit(prepare(cache), base)")
